@@ -224,7 +224,7 @@ fn outcome_sig(trace: &Trace, o: &Outcome, own_classes: &[String]) -> u64 {
 
 fn outcome_line(o: &Outcome) -> String {
     format!(
-        "size={} parse={:?} ec={:?} data={:?} str={:?} dmg={:?} probes={:x} viol=[{}]",
+        "size={} parse={:?} ec={:?} data={:?} str={:?} dmg={:?} probes={:x} cf={} viol=[{}]",
         o.size.map(|s| SIZES[s].name).unwrap_or("-"),
         o.parse,
         o.ec,
@@ -232,6 +232,7 @@ fn outcome_line(o: &Outcome) -> String {
         o.strc,
         o.block_damage,
         o.probes,
+        o.control_failure as u8,
         o.violations
             .iter()
             .map(|v| format!("{}:{}", v.prop, v.class))
@@ -286,6 +287,7 @@ pub struct RunCfg {
     pub keep_log: bool,
     pub hang_ms: u64,
     pub max_found: usize,
+    pub stop_on_violation: bool,
 }
 
 struct Slot {
@@ -330,6 +332,7 @@ pub fn run_phases(ctx: &Arc<Ctx>, phases: Vec<Phase>, cfg: &RunCfg, own_prop: &s
             let capped = capped.clone();
             let keep_log = cfg.keep_log;
             let max_found = cfg.max_found;
+            let stop_on_violation = cfg.stop_on_violation;
             handles.push(std::thread::spawn(move || {
                 let phase = &phases[pi];
                 let opts = exec_opts_for(phase.source.prop());
@@ -356,7 +359,7 @@ pub fn run_phases(ctx: &Arc<Ctx>, phases: Vec<Phase>, cfg: &RunCfg, own_prop: &s
                     let o = execute(&ctx, &trace, &opts);
                     slots[wi].current.store(0, Ordering::Release);
                     record(&mut st, &pname, i, rs, &trace, &o, &own_prop, keep_log, max_found);
-                    if o.violations.iter().any(|v| v.prop == own_prop) {
+                    if stop_on_violation && o.violations.iter().any(|v| v.prop == own_prop) {
                         stop_chunk.fetch_min(chunk, Ordering::Relaxed);
                     }
                 }
@@ -424,7 +427,7 @@ pub fn run_phases(ctx: &Arc<Ctx>, phases: Vec<Phase>, cfg: &RunCfg, own_prop: &s
         if capped.load(Ordering::Relaxed) {
             *total.other_events.entry(format!("wall_cap_reached_in_phase_{}", phase.source.name())).or_insert(0) += 1;
         }
-        if !total.found.is_empty() {
+        if cfg.stop_on_violation && !total.found.is_empty() {
             break;
         }
     }
